@@ -11,9 +11,11 @@ pub fn label_name(rng: &mut Rng) -> String {
     // never a keyword, register or hex-looking
     let first = *rng.pick(&["L", "l", "_", "Z", "q", "LOOP", "data", "Msg", "k9", "T_"]);
     let mut s = String::from(first);
-    for _ in 0..rng.below(4) { s.push(*rng.pick(&['a', 'B', '_', '0', '7', 'z', 'Q'])); }
+    let nonascii = NON_ASCII_LABELS.with(|c| c.get());
+    for _ in 0..rng.below(4) { s.push(if nonascii && rng.chance(1, 3) { *rng.pick(&['é', 'É', 'ö', 'Ñ', 'α', 'Ω', 'ж', 'Ж']) } else { *rng.pick(&['a', 'B', '_', '0', '7', 'z', 'Q']) }); }
     s
 }
+thread_local! { pub static NON_ASCII_LABELS: std::cell::Cell<bool> = const { std::cell::Cell::new(false) }; }
 
 /// canonical (span-free) form of what the parser should return for this statement
 pub fn canon(s: &GStmt) -> String {
